@@ -10,7 +10,7 @@ IMPORTS = """From TxV Require Import Core.Base Core.Show Model.Proc Gen.SrcLoad 
 Open Scope string_scope.
 Definition show_lev (e : lev) : string :=
   match e with LResolve _ => "R" | LInit _ => "I" | LProc _ => "P" | LRaise => "X" end.
-Definition show_trace (u : bool) : string := sjoin "" (map show_lev (run_phases load_phases [0%nat; 1%nat] u))."""
+Definition show_trace (u : bool) : string := sjoin "" (map show_lev (run_phases load_phases [0%nat; 1%nat; 2%nat; 3%nat] u))."""
 
 FALSY = {"i:0", "s:", "b:False", "f:0.0"}     # canonical atom texts of falsy Python values
 
@@ -109,7 +109,7 @@ def run(chk):
         if "init" in kinds:
             chk.stat("with user classes")
         if c.get("files"):
-            chk.stat("two models under construction (importURI)")
+            chk.stat("import graph %s (%d models under construction)" % (c.get("shape") or "pair", len(c["files"]) + 1))
         if "resolve" in kinds:
             chk.stat("with references")
         if any(e["id"] == 0 for e in procs):
